@@ -12,7 +12,13 @@
 //!               the cut file and crashes again (up to three crashes).
 //!   raw.*       `RaftWal::open/append/replay` + `RaftRecoveryState::from_entries` on random
 //!               record lists (all seven kinds), cuts, bit flips, reopen-and-append.
-//!   snapshot    `install_snapshot` on a WAL-backed follower, then acknowledge, crash, restart.
+//!   snapshot    the same machinery on scripted histories around `install_snapshot` /
+//!               `install_snapshot_streaming` on a WAL-backed follower: the follower lags behind the
+//!               snapshot, holds an agreeing suffix beyond the snapshot index, or holds a conflicting
+//!               log with a local suffix beyond the snapshot index; then the leader's next
+//!               AppendEntries on top of the snapshot; byte cuts inside the install's records,
+//!               restarts on them, crash chains continuing from a half-written install.
+//!               (random `install_snapshot` events also occur in every chain script.)
 use std::collections::{BTreeSet, HashSet};
 use std::path::{Path, PathBuf};
 use std::sync::Arc;
@@ -25,7 +31,7 @@ use tensor_chain::network::{
     RequestVote, RequestVoteResponse,
 };
 use tensor_chain::raft::{RaftConfig, RaftNode, RaftState};
-use tensor_chain::{RaftRecoveryState, RaftWal, RaftWalEntry};
+use tensor_chain::{serialize_entries, RaftRecoveryState, RaftWal, RaftWalEntry, SnapshotBufferConfig, SnapshotMetadata};
 use tensor_store::SparseVector;
 
 const SELF_ID: u64 = 0;
@@ -237,6 +243,8 @@ enum Ev {
     Ae { t: u64, l: u64, pi: u64, pt: u64, ents: Vec<(u64, u64)> },
     Aer { t: u64 },
     Prop { c: u64 },
+    /// `install_snapshot` (bytes) / `install_snapshot_streaming` with metadata (li, lt) and entries 1..n
+    Snap { li: u64, lt: u64, ents: Vec<(u64, u64)>, streaming: bool },
 }
 
 fn pairs_tok(v: &[(u64, u64)]) -> String {
@@ -254,6 +262,7 @@ impl Ev {
             Ev::Ae { t, l, pi, pt, ents } => format!("ev ae {t} {l} {pi} {pt} {}", pairs_tok(ents)),
             Ev::Aer { t } => format!("ev aer {t}"),
             Ev::Prop { c } => format!("ev prop {c}"),
+            Ev::Snap { li, lt, ents, .. } => format!("ev snap {li} {lt} {}", pairs_tok(ents)),
         }
     }
     fn tag(&self) -> &'static str {
@@ -266,6 +275,7 @@ impl Ev {
             Ev::Ae { .. } => "append_entries",
             Ev::Aer { .. } => "append_response",
             Ev::Prop { .. } => "propose",
+            Ev::Snap { .. } => "install_snapshot",
         }
     }
 }
@@ -287,10 +297,19 @@ impl Ghost {
             list_or_dash(&self.acked.iter().map(|(i, t, c)| format!("{i}:{t}:{c}")).collect::<Vec<_>>())
         )
     }
+    /// an obligation about an acknowledged entry ends when the durable log starts to drop it on a
+    /// later leader's order: conflict truncation, or a snapshot entry written over it
     fn shrink(&mut self, recs: &[RaftWalEntry]) {
         for r in recs {
-            if let RaftWalEntry::LogTruncate { from_index } = r {
-                self.acked.retain(|e| e.0 < *from_index);
+            match r {
+                RaftWalEntry::LogTruncate { from_index } => self.acked.retain(|e| e.0 < *from_index),
+                RaftWalEntry::LogEntryFull { index, entry_data, .. } => {
+                    let new: Option<Ent> = bitcode::deserialize::<LogEntry>(entry_data)
+                        .ok()
+                        .map(|e| (e.index, e.term, e.block.header.height));
+                    self.acked.retain(|e| e.0 != *index || Some(*e) == new);
+                }
+                _ => {}
             }
         }
     }
@@ -423,6 +442,130 @@ fn apply_real(lv: &mut Live, ev: &Ev) -> String {
                 }
             }
         }
+        Ev::Snap { li, lt, ents, streaming } => {
+            let entries: Vec<LogEntry> = ents
+                .iter()
+                .enumerate()
+                .map(|(k, (t, c))| LogEntry::new(*t, 1 + k as u64, mk_block(*c)))
+                .collect();
+            let peers: Vec<String> = (1..=NPEERS).map(nid).collect();
+            let res: Result<(), String> = if *streaming || entries.is_empty() {
+                match serialize_entries(&entries, SnapshotBufferConfig::default()) {
+                    Ok(buf) => {
+                        let meta = SnapshotMetadata::new(*li, *lt, buf.hash(), peers, buf.total_len());
+                        n.install_snapshot_streaming(meta, &buf).map_err(|e| e.to_string())
+                    }
+                    Err(e) => Err(format!("helper: {e}")),
+                }
+            } else {
+                // a real node holding exactly these entries produces the snapshot bytes and their hash
+                let helper = RaftNode::with_state(
+                    nid(9),
+                    peers.clone(),
+                    Arc::new(MemoryTransport::new(nid(9))),
+                    cfg(),
+                    0,
+                    None,
+                    entries.clone(),
+                );
+                helper.set_finalized_height(entries.len() as u64);
+                match helper.create_snapshot() {
+                    Ok((mut meta, data)) => {
+                        meta.last_included_index = *li;
+                        meta.last_included_term = *lt;
+                        meta.config = peers;
+                        n.install_snapshot(meta, &data).map_err(|e| e.to_string())
+                    }
+                    Err(e) => Err(format!("helper: {e}")),
+                }
+            };
+            match res {
+                Ok(()) => "snap:1".into(),
+                Err(e) if e.starts_with("helper:") => format!("err:{e}"),
+                Err(_) => "snap:0".into(),
+            }
+        }
+    }
+}
+
+/// a snapshot as some leader could send it, relative to the follower's current log
+fn gen_snap(r: &mut Rng, cur: u64, log: &[Ent]) -> Ev {
+    let len = log.len() as u64;
+    let n = match r.below(20) {
+        0 => 0,
+        1..=7 if len > 1 => 1 + r.below(len - 1), // local suffix beyond the snapshot index
+        8..=10 if len > 0 => len,
+        _ => len + 1 + r.below(3),
+    };
+    let mut ents: Vec<(u64, u64)> = vec![];
+    let mut conflict = false;
+    let mut prev_t = 0u64;
+    for idx in 1..=n {
+        let existing = log.get((idx - 1) as usize).copied();
+        match existing {
+            Some(e) if !conflict && e.1 >= prev_t && r.chance(4, 5) => {
+                ents.push((e.1, e.2));
+                prev_t = e.1;
+            }
+            _ => {
+                conflict = true;
+                let t = match r.below(4) {
+                    0 => cur + 1,
+                    1 => cur.saturating_sub(1),
+                    _ => cur,
+                }
+                .max(prev_t)
+                .max(1);
+                ents.push((t, 1 + r.below(900)));
+                prev_t = t;
+            }
+        }
+    }
+    let li = match r.below(12) {
+        0 => n + 1,
+        1 => n.saturating_sub(1),
+        _ => n,
+    };
+    let lt = if r.chance(1, 12) { prev_t + 1 } else { prev_t };
+    Ev::Snap { li, lt, ents, streaming: r.chance(1, 2) }
+}
+
+/// Scripted histories around one snapshot install (stream `snapshot`).
+fn snapshot_script(r: &mut Rng) -> (Vec<Ev>, &'static str) {
+    let t0 = 1 + r.below(2);
+    let t1 = t0 + 1 + r.below(2);
+    let total = 3 + r.below(5);
+    let snap = 1 + r.below(total);
+    let j = r.below(snap + 1); // the leader's entries 1..j are of term t0, the rest of term t1
+    let leader: Vec<(u64, u64)> = (1..=total + 2).map(|i| (if i <= j { t0 } else { t1 }, 100 + i)).collect();
+    let term_at = |i: u64| leader[(i - 1) as usize].0;
+    let extra = 1 + r.below(2);
+    let on_top = leader[snap as usize..(snap + extra) as usize].to_vec();
+    let install = Ev::Snap { li: snap, lt: term_at(snap), ents: leader[..snap as usize].to_vec(), streaming: r.chance(1, 2) };
+    let ack_on_top = Ev::Ae { t: t1, l: 1, pi: snap, pt: term_at(snap), ents: on_top };
+    match r.below(3) {
+        0 => {
+            // the follower lags behind the snapshot
+            let have = r.below(snap);
+            let mut v = vec![];
+            if have > 0 {
+                v.push(Ev::Ae { t: t1, l: 1, pi: 0, pt: 0, ents: leader[..have as usize].to_vec() });
+            }
+            v.push(install);
+            v.push(ack_on_top);
+            (v, "gap")
+        }
+        1 => {
+            // the follower already holds the leader's log beyond the snapshot index
+            let have = (snap + 1 + r.below(2)).min(total + 2);
+            (vec![Ev::Ae { t: t1, l: 1, pi: 0, pt: 0, ents: leader[..have as usize].to_vec() }, install, ack_on_top], "suffix_agrees")
+        }
+        _ => {
+            // entries j+1.. were written by the deposed leader of term t0 and reach beyond the snapshot index
+            let have = snap + 1 + r.below(3);
+            let local: Vec<(u64, u64)> = (1..=have).map(|i| if i <= j { leader[(i - 1) as usize] } else { (t0, 500 + i) }).collect();
+            (vec![Ev::Ae { t: t0, l: 2, pi: 0, pt: 0, ents: local }, install, ack_on_top], "suffix_conflicts")
+        }
     }
 }
 
@@ -516,7 +659,8 @@ fn gen_event(r: &mut Rng, lv: &Live) -> Ev {
                 }
                 return Ev::Ae { t, l: 1 + r.below(NPEERS), pi, pt, ents };
             }
-            85..=89 => return Ev::Aer { t: term_near(r) },
+            85..=88 => return Ev::Aer { t: term_near(r) },
+            89..=93 => return gen_snap(r, cur, &log),
             _ => {
                 if role == RaftState::Leader || r.chance(1, 6) {
                     return Ev::Prop { c: 1 + r.below(900) };
@@ -545,6 +689,8 @@ struct Ctx<'a> {
 struct Step {
     ev: Ev,
     frames_after: usize,
+    bytes_before: usize,
+    bytes_after: usize,
     ghost_after: Ghost,
     slot: usize,
 }
@@ -568,8 +714,10 @@ fn obligations_at(steps: &[Step], base_ghost: &Ghost, base_slot: usize, base_fra
     (g, slot, inflight)
 }
 
-fn violation_class(kind: &str, repaired: bool) -> String {
-    if repaired {
+fn violation_class(kind: &str, repaired: bool, after_install: bool) -> String {
+    if repaired && after_install && kind == "lost_entry" {
+        "tensor_chain.raft.install_snapshot/acked_entries_not_durable".to_string()
+    } else if repaired {
         format!("tensor_chain.raft_wal.recover/{kind}")
     } else {
         "tensor_chain.raft_wal.open/append_after_torn_tail".to_string()
@@ -577,7 +725,7 @@ fn violation_class(kind: &str, repaired: bool) -> String {
 }
 
 /// A whole case: up to `max_crashes` phases on one WAL file.
-fn run_case(cx: &mut Ctx, r: &mut Rng, case_no: u64, max_crashes: usize) {
+fn run_case(cx: &mut Ctx, r: &mut Rng, case_no: u64, max_crashes: usize, script: Option<Vec<Ev>>, stream: &str) {
     let dir = shm_dir();
     let path: PathBuf = dir.path().join("raft.wal");
     cx.m.ask("clear");
@@ -592,19 +740,26 @@ fn run_case(cx: &mut Ctx, r: &mut Rng, case_no: u64, max_crashes: usize) {
     let mut all_repaired = true;
     let mut key = String::new();
     let mut state_changes = 0u64;
+    let mut after_install = false;
 
     for phase in 0..=max_crashes {
         let base_bytes = std::fs::read(&path).unwrap_or_default();
         let base_frames = frames(&base_bytes).len();
         let base_len = base_bytes.len();
         let base_ghost = ghost.clone();
-        let nev = if phase == 0 { 6 + r.below(14) } else { 2 + r.below(7) } as usize;
+        let scripted: Vec<Ev> = if phase == 0 { script.clone().unwrap_or_default() } else { vec![] };
+        let nev = if phase == 0 {
+            if script.is_some() { scripted.len() + r.below(3) as usize } else { 6 + r.below(14) as usize }
+        } else {
+            2 + r.below(7) as usize
+        };
         let mut steps: Vec<Step> = vec![];
-        for _ in 0..nev {
-            let ev = gen_event(r, &lv);
+        for ei in 0..nev {
+            let ev = if ei < scripted.len() { scripted[ei].clone() } else { gen_event(r, &lv) };
             let before = std::fs::read(&path).unwrap_or_default();
             let nb = frames(&before).len();
             let term_before = lv.node.current_term();
+            let log_before = node_log(&lv.node);
             let reply = apply_real(&mut lv, &ev);
             let after = std::fs::read(&path).unwrap_or_default();
             register(cx.m, &mut cx.seen, &after);
@@ -658,6 +813,39 @@ fn run_case(cx: &mut Ctx, r: &mut Rng, case_no: u64, max_crashes: usize) {
                     }
                 }
                 Ev::Lead => {}
+                Ev::Snap { li, lt, ents, streaming } => {
+                    let n = ents.len() as u64;
+                    if reply == "snap:1" {
+                        after_install = true;
+                        ghost.acted = ghost.acted.max(term);
+                        for e in &log {
+                            ghost.acked.insert(*e);
+                        }
+                        cx.rep.hit(if *streaming { "snapshot.path.streaming" } else { "snapshot.path.bytes" });
+                        if (n as usize) < log_before.len() {
+                            cx.rep.hit("snapshot.local_suffix_beyond");
+                        }
+                        if log_before.len() < n as usize {
+                            cx.rep.hit("snapshot.fills_gap");
+                        }
+                        let conflicts = log_before.iter().zip(log.iter()).any(|(a, b)| a != b);
+                        if conflicts {
+                            cx.rep.hit("snapshot.conflicts_local");
+                            if (n as usize) < log_before.len() {
+                                cx.rep.hit("snapshot.conflicts_local_with_suffix_beyond");
+                            }
+                        }
+                        if new_recs.iter().any(|x| matches!(x, RaftWalEntry::TermAndVote { .. })) {
+                            cx.rep.hit("snapshot.higher_term");
+                        }
+                        if lv.node.state() != RaftState::Follower {
+                            cx.rep.hit("snapshot.on_non_follower");
+                        }
+                    } else if reply == "snap:0" {
+                        let well_formed = n > 0 && *li == n && ents.last().map(|x| x.0) == Some(*lt);
+                        cx.rep.hit(if well_formed { "snapshot.rejected_stale" } else { "snapshot.rejected_invalid" });
+                    }
+                }
             }
             let imp = format!(
                 "recs={} reply={} state={}/{}/{}",
@@ -686,10 +874,14 @@ fn run_case(cx: &mut Ctx, r: &mut Rng, case_no: u64, max_crashes: usize) {
             if new_recs.iter().any(|x| matches!(x, RaftWalEntry::LogTruncate { .. })) {
                 cx.rep.hit("branch.conflict_truncate");
             }
-            cx.rep.hit(&format!("reply.{}", reply.split(':').take(3).enumerate().filter(|(i, _)| *i != 1).map(|(_, s)| s).collect::<Vec<_>>().join(":")));
+            if reply.starts_with("snap:") || reply.starts_with("err:") {
+                cx.rep.hit(&format!("reply.{}", reply.split(' ').next().unwrap_or("")));
+            } else {
+                cx.rep.hit(&format!("reply.{}", reply.split(':').take(3).enumerate().filter(|(i, _)| *i != 1).map(|(_, s)| s).collect::<Vec<_>>().join(":")));
+            }
             key.push_str(&line);
             key.push(';');
-            steps.push(Step { ev, frames_after: frames(&after).len(), ghost_after: ghost.clone(), slot });
+            steps.push(Step { ev, frames_after: frames(&after).len(), bytes_before: before.len(), bytes_after: after.len(), ghost_after: ghost.clone(), slot });
         }
 
         // ------------------------------------------------ cuts of this phase's file
@@ -719,10 +911,19 @@ fn run_case(cx: &mut Ctx, r: &mut Rng, case_no: u64, max_crashes: usize) {
             cuts.insert(file.len());
         }
         let cuts: Vec<usize> = cuts.into_iter().collect();
+        // cuts that fall inside the records of a snapshot install (first record begun, last not complete)
+        let mid_install: Vec<usize> = cuts
+            .iter()
+            .copied()
+            .filter(|n| steps.iter().any(|s| matches!(s.ev, Ev::Snap { .. }) && s.bytes_before < *n && *n < s.bytes_after))
+            .collect();
         let chosen = if phase < max_crashes && !cuts.is_empty() {
             // prefer a cut that tears a record
             let torn: Vec<usize> = cuts.iter().copied().filter(|n| !fr.iter().any(|(_, e)| e == n) && *n != base_len).collect();
-            if !torn.is_empty() && r.chance(4, 5) {
+            if !mid_install.is_empty() && r.chance(if script.is_some() { 2 } else { 1 }, 3) {
+                cx.rep.hit("chain.crash_mid_install");
+                Some(*r.pick(&mid_install))
+            } else if !torn.is_empty() && r.chance(4, 5) {
                 Some(*r.pick(&torn))
             } else {
                 Some(*r.pick(&cuts))
@@ -738,6 +939,12 @@ fn run_case(cx: &mut Ctx, r: &mut Rng, case_no: u64, max_crashes: usize) {
             cx.rep.hit(if torn { "cut.torn" } else { "cut.boundary" });
             if !inflight.is_empty() {
                 cx.rep.hit("cut.inflight_records");
+            }
+            if mid_install.contains(&n) {
+                cx.rep.hit("cut.mid_snapshot_install");
+                if inflight.iter().any(|x| matches!(x, RaftWalEntry::LogEntryFull { .. })) {
+                    cx.rep.hit("cut.mid_snapshot_install.some_entries_durable");
+                }
             }
             // (a) WAL level: open + from_wal vs model
             let p1 = dir.path().join("cut_a.wal");
@@ -772,7 +979,7 @@ fn run_case(cx: &mut Ctx, r: &mut Rng, case_no: u64, max_crashes: usize) {
                     cx.rep.compare("cut.restart", || json!({"history": hist, "cut": n}), &imp_node, &mo_node);
                     for (kind, detail) in obl.check(term, &voted, &log) {
                         cx.rep.violation(
-                            &violation_class(kind, all_repaired && repaired),
+                            &violation_class(kind, all_repaired && repaired, after_install),
                             &detail,
                             json!({"case": case_no, "phase": phase, "history": history, "cut": n, "file_len": file.len(),
                                    "obligations": obl.tok(), "restarted": imp_node}),
@@ -786,7 +993,7 @@ fn run_case(cx: &mut Ctx, r: &mut Rng, case_no: u64, max_crashes: usize) {
                     cx.rep.compare("cut.restart", || json!({"history": hist, "cut": n}), &format!("err {}", err_class(&e.to_string())), &mo_node);
                     if nonempty {
                         cx.rep.violation(
-                            &violation_class("restart_fails", all_repaired && repaired),
+                            &violation_class("restart_fails", all_repaired && repaired, after_install),
                             &format!("RaftNode::with_wal fails on the crashed log: {e}"),
                             json!({"case": case_no, "phase": phase, "history": history, "cut": n, "file_len": file.len(), "obligations": obl.tok()}),
                         );
@@ -814,7 +1021,7 @@ fn run_case(cx: &mut Ctx, r: &mut Rng, case_no: u64, max_crashes: usize) {
                 let nonempty = obl.acted > 0 || !obl.votes.is_empty() || !obl.acked.is_empty();
                 if nonempty {
                     cx.rep.violation(
-                        &violation_class("restart_fails", false),
+                        &violation_class("restart_fails", false, after_install),
                         &format!("RaftNode::with_wal fails on the crashed log: {e}"),
                         json!({"case": case_no, "phase": phase, "history": history, "obligations": obl.tok()}),
                     );
@@ -842,9 +1049,9 @@ fn run_case(cx: &mut Ctx, r: &mut Rng, case_no: u64, max_crashes: usize) {
             cx.rep.hit("chain.crash_torn_tail");
         }
     }
-    cx.rep.case("chain", if state_changes > 0 { Some(&key) } else { None });
-    if cx.rep.samples.len() < 4 {
-        cx.rep.sample(json!({"stream": "chain", "history": history.iter().take(12).collect::<Vec<_>>()}));
+    cx.rep.case(stream, if state_changes > 0 { Some(&key) } else { None });
+    if cx.rep.samples.len() < 4 || (stream == "snapshot" && cx.rep.samples.len() < 6) {
+        cx.rep.sample(json!({"stream": stream, "history": history.iter().take(12).collect::<Vec<_>>()}));
     }
 }
 
@@ -1047,104 +1254,6 @@ fn prime_leader(n: &RaftNode) {
     }
 }
 
-/// The follower holds `have` entries (acknowledged), a snapshot covering `snap` entries is installed,
-/// the leader's next AppendEntries on top of the snapshot is acknowledged, then crash and restart.
-fn run_snapshot(cx: &mut Ctx, r: &mut Rng, case_no: u64) {
-    let dir = shm_dir();
-    let path = dir.path().join("f.wal");
-    let total = 3 + r.below(5);
-    let have = r.below(total);
-    let snap = (have + 1 + r.below(total - have)).min(total);
-    let extra = 1 + r.below(2);
-    // a real leader (n1) produces the log and the snapshot
-    let leader = RaftNode::new(
-        nid(1),
-        [0u64, 2, 3, 4].iter().map(|k| nid(*k)).collect(),
-        Arc::new(MemoryTransport::new(nid(1))),
-        cfg(),
-    );
-    leader.start_election();
-    leader.become_leader();
-    prime_leader(&leader);
-    for i in 1..=(total + extra) {
-        if leader.propose(mk_block(100 + i)).is_err() {
-            cx.rep.note("snapshot stream: helper leader could not propose");
-            return;
-        }
-    }
-    let lt = leader.current_term();
-    let (_, _, lents, _) = leader.get_entries_for_follower(&"zz".to_string());
-    leader.set_finalized_height(snap);
-    let Ok((meta, data)) = leader.create_snapshot() else {
-        cx.rep.note("snapshot stream: create_snapshot failed");
-        return;
-    };
-    let follower = mk_node(&path).expect("follower");
-    let mut ghost = Ghost::default();
-    let mut hist: Vec<String> = vec![];
-    let send = |f: &RaftNode, prev: u64, ents: &[LogEntry]| -> (bool, u64, u64) {
-        let ae = AppendEntries {
-            term: lt,
-            leader_id: nid(1),
-            prev_log_index: prev,
-            prev_log_term: if prev == 0 { 0 } else { lt },
-            entries: ents.to_vec(),
-            leader_commit: 0,
-            block_embedding: None,
-        };
-        match f.handle_message(&nid(1), &Message::AppendEntries(ae)) {
-            Some(Message::AppendEntriesResponse(x)) => (x.success, x.match_index, x.term),
-            _ => (false, 0, 0),
-        }
-    };
-    let (ok, mi, t) = send(&follower, 0, &lents[..have as usize]);
-    hist.push(format!("ae term={lt} prev=0 entries=1..{have} -> success={ok} match={mi}"));
-    ghost.acted = ghost.acted.max(t);
-    if ok {
-        for e in node_log(&follower).iter().filter(|e| e.0 <= mi) {
-            ghost.acked.insert(*e);
-        }
-    }
-    let inst = follower.install_snapshot(meta.clone(), &data);
-    hist.push(format!("install_snapshot last_index={} last_term={} -> {}", meta.last_included_index, meta.last_included_term, if inst.is_ok() { "ok" } else { "err" }));
-    cx.rep.hit(if inst.is_ok() { "snapshot.installed" } else { "snapshot.rejected" });
-    let (ok2, mi2, t2) = send(&follower, snap, &lents[snap as usize..(snap + extra) as usize]);
-    hist.push(format!("ae term={lt} prev={snap} entries={}..{} -> success={ok2} match={mi2}", snap + 1, snap + extra));
-    ghost.acted = ghost.acted.max(t2);
-    if ok2 {
-        for e in node_log(&follower).iter().filter(|e| e.0 <= mi2) {
-            ghost.acked.insert(*e);
-        }
-        cx.rep.hit("snapshot.ack_on_top");
-    }
-    let mem_log = node_log(&follower);
-    drop(follower);
-    // crash with everything synced; restart
-    let p2 = dir.path().join("p.wal");
-    std::fs::copy(&path, &p2).unwrap();
-    match (mk_node(&path), mk_node(&p2)) {
-        (Ok(rn), Ok(pn)) => {
-            let term = rn.current_term();
-            let log = node_log(&rn);
-            let voted = probe_voted(&pn);
-            let bad = ghost.check(term, &voted, &log);
-            cx.rep.hit(if bad.is_empty() { "snapshot.restart_ok" } else { "snapshot.restart_lost" });
-            if let Some((kind, detail)) = bad.first() {
-                cx.rep.violation(
-                    &format!("tensor_chain.raft.install_snapshot/{}", if *kind == "lost_entry" { "acked_entries_not_durable" } else { kind }),
-                    &format!("{detail} ({} obligations broken): install_snapshot replaces the in-memory log without writing it to the WAL", bad.len()),
-                    json!({"case": case_no, "steps": hist, "log_in_memory_before_crash": log_tok(&mem_log),
-                           "log_after_restart": log_tok(&log), "obligations": ghost.tok()}),
-                );
-            }
-        }
-        _ => {
-            cx.rep.violation("tensor_chain.raft.install_snapshot/restart_fails", "restart failed", json!({"case": case_no, "steps": hist}));
-        }
-    }
-    cx.rep.case("snapshot", Some(&format!("{have}/{snap}/{extra}")));
-}
-
 /// `propose_codebook_replace` (outside C10's listed operations): is the accepted entry logged?
 fn probe_codebook(cx: &mut Ctx) {
     let dir = shm_dir();
@@ -1180,6 +1289,12 @@ fn main() {
         "chain.crash_torn_tail", "raw.rec.TermChange", "raw.rec.VoteCast", "raw.rec.TermAndVote", "raw.rec.LogAppend",
         "raw.rec.LogTruncate", "raw.rec.SnapshotTaken", "raw.rec.LogEntryFull", "raw.reopen.torn", "raw.reopen.clean",
         "raw.flip.error",
+        "ev.install_snapshot", "reply.snap:1", "reply.snap:0", "snapshot.path.streaming", "snapshot.path.bytes",
+        "snapshot.local_suffix_beyond", "snapshot.fills_gap", "snapshot.conflicts_local",
+        "snapshot.conflicts_local_with_suffix_beyond", "snapshot.higher_term", "snapshot.on_non_follower",
+        "snapshot.rejected_stale", "snapshot.rejected_invalid", "snapshot.script.gap", "snapshot.script.suffix_agrees",
+        "snapshot.script.suffix_conflicts", "cut.mid_snapshot_install", "cut.mid_snapshot_install.some_entries_durable",
+        "chain.crash_mid_install",
     ]
     .iter()
     .map(|s| s.to_string())
@@ -1195,8 +1310,11 @@ fn main() {
             run_raw(&mut cx, &mut r, i);
         }
         let mut r = root.fork("snapshot");
-        for i in 0..(if thorough { 200 } else { 30 }) {
-            run_snapshot(&mut cx, &mut r, i);
+        for i in 0..(if thorough { 300 } else { 30 }) {
+            let (script, variant) = snapshot_script(&mut r);
+            cx.rep.hit(&format!("snapshot.script.{variant}"));
+            cx.thorough = thorough && i < 30;
+            run_case(&mut cx, &mut r, 10_000 + i, 2, Some(script), "snapshot");
         }
         probe_codebook(&mut cx);
         let mut r = root.fork("chain");
@@ -1205,7 +1323,7 @@ fn main() {
         let n_chain = if thorough { 400 } else { 40 };
         for i in 0..n_chain {
             cx.thorough = thorough && i < 30;
-            run_case(&mut cx, &mut r, i, 3);
+            run_case(&mut cx, &mut r, i, 3, None, "chain");
         }
     }
     rep.note("votedFor of a restarted real node is observed through RequestVote probes on a throw-away copy (no getter exists)");
